@@ -420,7 +420,7 @@ def has_settable_check(kind: str, variant: str) -> bool:
     return kind in ("csbk", "header", "pi") or (kind in _RATE_LEN and variant.startswith("Confirmed"))
 
 
-def boundary_cases(kind: str, variant: str, backgrounds: List[dict]) -> List[Tuple[str, dict]]:
+def boundary_cases(kind: str, variant: str, backgrounds: List[dict], fill_octets=()) -> List[Tuple[str, dict]]:
     """(label, fields) list: every field of the variant set to each of its boundary values, one at a time, over each
     background; plus the all-minimum and all-maximum field settings; plus the check-field modes 0 / all-ones / computed."""
     spec = SPEC[(kind, variant)]
@@ -448,6 +448,14 @@ def boundary_cases(kind: str, variant: str, backgrounds: List[dict]) -> List[Tup
                 f = dict(bg)
                 f["_check"] = mode
                 out.append(("check_" + mode, f))
+    # constant fill of every byte-string field with each of the given octet values (first background): drives sums / folds
+    # over the payload (CRC registers, checksums) through every constant input
+    for name, sp in spec:
+        if sp[0] == "bytes" and backgrounds:
+            for v in fill_octets:
+                f = dict(backgrounds[0])
+                f[name] = ("%02x" % v) * sp[1]
+                out.append(("constant_fill", f))
     for _, f in out:
         f.pop("_excluded", None)
     return out
